@@ -463,7 +463,8 @@ fn eval_variant(eng: &Engine, base: &Path, db: Db, spec: &Spec, light: bool, bl:
             }
         }
     }
-    if rep.samples.len() < 2 && (matches!(spec, Spec::ExtraAll(2)) || matches!(spec, Spec::TrioPerm(k) if *k == 5)) {
+    let sample_db = db.p == Pattern::MixA && db.first == 1 && db.n == 2;
+    if sample_db && (matches!(spec, Spec::ExtraOne(3, true)) || matches!(spec, Spec::TrioPerm(k) if *k == 500) || matches!(spec, Spec::TopLevel(7))) {
         rep.sample(json!({"part": "A/layout", "db": db.to_json(), "layout": desc, "entries_in_creation_order": brief(&es),
             "readdir_order_of_immutable_dir": listing(&dbdir.join("immutable")),
             "root_at_last_beacon": bl.root(db, db.last()).map(|o| o.show())}));
@@ -730,7 +731,7 @@ fn eval_perturb(eng: &Engine, base: &Path, db: Db, es: &[Entry], b: u64, target:
             rep.outcome("uncovered-change→same-root");
         }
     }
-    if rep.samples.is_empty() && covered && !ops.is_empty() {
+    if db.p == Pattern::MixA && db.first == 1 && db.n == 2 && b == 2 && (e.rel == "immutable/00002.primary" || e.rel == "immutable/00003.bak") {
         rep.sample(json!({"part": "B/perturbation", "db": db.to_json(), "beacon": b, "target": e.rel, "covered": covered,
             "perturbations": ops.iter().take(4).map(|o| o.to_json()).collect::<Vec<_>>(), "perturbations_total": ops.len(), "reference": r0.show()}));
     }
@@ -1076,7 +1077,7 @@ pub fn run(ctx: &Ctx) -> ! {
     for &db in &dbs {
         let specs = specs_for(db, thorough, thorough && db == full_perm_db);
         a_variants += specs.len() as u64;
-        let perms = specs.iter().filter(|(s, _)| matches!(s, Spec::TrioPerm(_))).count() as u64 + 1;
+        let perms = specs.iter().filter(|(s, _)| matches!(s, Spec::TrioPerm(_) | Spec::TrioNamed(_))).count() as u64 + 1;
         if db.p == Pattern::MixA {
             perm_sweeps.push(json!({"db": db.to_json(), "trio_file_creation_orders": perms,
                 "all_permutations": perms == factorial((3 * db.n) as usize)}));
